@@ -616,6 +616,7 @@ func runC19(ctx Ctx) int {
 		runConc(run, "C19", cb, cs)
 	}
 	finishCapped(run, c1 && c2 && c2b, fmt.Sprintf("A: full product (%d issuer strings x 2); B: %d derivation cases", run.Evaluations.Load()/2, len(dcases)))
+	runLongRuns(run, "C19")
 	return run.Finish()
 }
 
